@@ -22,7 +22,18 @@ for d in sorted(os.listdir(SEEDED)):
     needs = needs.replace("\n", " ").replace("|", "/")
     if len(needs) > 150:
         needs = needs[:147] + "..."
-    caught = ", ".join("%s%s" % (r["check"], "" if r["detected"] else " (missed, exit %s)" % r["exit"]) for r in (res or {}).get("runs", [])) or "not run"
+    quiet_expected = d.startswith("neutral-") or bool(meta.get("superseded_by"))
+    primary = d.split("-")[0]
+
+    def cell(r):
+        if quiet_expected:
+            return "%s %s" % (r["check"], "quiet (as it must be)" if r["exit"] == 0 else "ALARM exit %s" % r["exit"])
+        if r["detected"]:
+            return r["check"]
+        return "%s (%s, exit %s)" % (r["check"], "missed" if r["check"] == primary else "silent: not this check's property", r["exit"])
+    caught = ", ".join(cell(r) for r in (res or {}).get("runs", [])) or "not run"
+    if meta.get("superseded_by"):
+        caught += " — superseded: " + str(meta["superseded_by"])
     rows.append("| %s | %s | %s |" % (d, needs, caught))
 table = "| seed (`/verif/seeded/…`) | needs | quick check that reports it |\n|---|---|---|\n" + "\n".join(rows) + "\n"
 print(table)
